@@ -158,6 +158,8 @@ func edits() []Op {
 		tog("edit:dir/x.txt", func(v *Vars) { v.X = 1 - v.X }),
 		tog("rename:dir/y.txt<->z.txt", func(v *Vars) { v.YName = 1 - v.YName }),
 		tog("addremove:dir/w.txt", func(v *Vars) { v.W = !v.W }),
+		tog("link:dir/link", func(v *Vars) { v.Link = (v.Link + 1) % 3 }),
+		tog("global:LATE", func(v *Vars) { v.Late = 1 - v.Late }),
 		tog("const:K", func(v *Vars) { v.K = (v.K + 1) % len(kvals) }),
 		tog("default:leaf.d", func(v *Vars) { v.D = 1 - v.D }),
 		tog("code:helper", func(v *Vars) { v.H = 1 - v.H }),
@@ -208,6 +210,49 @@ func builds() []Op {
 		b("gc:full", buildOpts{GC: true}),
 		b("gc:index", buildOpts{GC: true, PreferIndex: true}),
 	}
+}
+
+type focus struct {
+	ops   []string
+	depth int
+}
+
+func focused(prop string, thorough bool) []focus {
+	d := 0
+	if thorough {
+		d = 2
+	}
+	switch prop {
+	case "C01":
+		return []focus{
+			{[]string{"edit:src/a.txt", "code:helper", "build:gen", "build:mid", "build:top"}, 8 + d},
+			{[]string{"link:dir/link", "edit:misc/n.txt", "edit:dir/x.txt", "build:mid", "build:top"}, 7 + d},
+			{[]string{"edit:pkg/b.txt", "default:leaf.d", "flag:mode", "build:leaf", "build:top"}, 7 + d},
+			{[]string{"global:LATE", "delete:gen/g.txt", "fail:gen", "build:gen", "build:top"}, 7 + d},
+		}
+	case "C02":
+		return []focus{
+			{[]string{"link:dir/link", "edit:misc/n.txt", "comment:BUILD.dawn", "build:mid", "build:top"}, 7 + d},
+			{[]string{"global:LATE", "comment+docstring:lib.dawn", "edit:src/a.txt", "build:gen", "build:top"}, 7 + d},
+		}
+	}
+	return nil
+}
+
+func alphabetOf(names []string) []Op {
+	byName := map[string]Op{}
+	for _, o := range append(edits(), builds()...) {
+		byName[o.Name] = o
+	}
+	var out []Op
+	for _, n := range names {
+		o, ok := byName[n]
+		if !ok {
+			vlib.Fatalf("unknown op %q", n)
+		}
+		out = append(out, o)
+	}
+	return out
 }
 
 func alphabet(prop string, thorough bool) []Op {
@@ -507,6 +552,7 @@ func (x *searcher) explore(depth int, ops []Op) {
 		frontier = next
 	}
 	x.r.Add("states", int64(total))
+	x.r.Add("searches", 1)
 }
 
 func main() {
@@ -547,6 +593,15 @@ func main() {
 		names = append(names, o.Name)
 	}
 	x.explore(depth, ops)
+	// focused searches: small alphabets explored much deeper (reverts through partial builds,
+	// links inside a source directory, ...)
+	for _, f := range focused(*fProp, r.Thorough()) {
+		if *fOps != "" {
+			break
+		}
+		x.explore(f.depth, alphabetOf(f.ops))
+		names = append(names, fmt.Sprintf("focused(depth %d): %s", f.depth, strings.Join(f.ops, " ")))
+	}
 	if *fProp == "C18" {
 		n := 8
 		if r.Thorough() {
